@@ -22,6 +22,7 @@ def do_replay(path):
     return 0
 
 
+KNOWN_PRINTED = set()
 ENGINE_B_PROPS = {"C02", "C03", "C09", "C20", "C01", "C06", "C07", "C11", "C12"}
 
 
@@ -43,7 +44,9 @@ def engine_b_part(prop, tier):
             tag = f"engineB:{r['kernel']}:{'wrapping' if r['semantics'].startswith('wrapping') else 'checked'}"
             k = next((k for k in known.get("known", []) if k["property"] == prop and __import__("re").fullmatch(k["harness"], tag)), None)
             if k:
-                print(f"KNOWN-FINDING: property={prop} {k['what']} [key={k['key']}]")
+                if k["key"] not in KNOWN_PRINTED:
+                    KNOWN_PRINTED.add(k["key"])
+                    print(f"KNOWN-FINDING: property={prop} {k['what']} [key={k['key']}]")
                 continue
             rep = s_.get("replay")
             runs = []
